@@ -311,7 +311,8 @@ impl ZmtpEngine {
         });
         // Fall through to the v3 greeting decode below.
       } else if peer_revision == V2_REVISION {
-        if !self.config.allow_zmtp2 {
+        // ZMTP/2.0 has no security handshake: never downgrade when a mechanism is configured.
+        if !self.config.allow_zmtp2 || self.config.security_enabled {
           self.fail(
             out,
             ZmqError::ProtocolViolation("ZMTP/2.0 downgrade disallowed by config".into()),
